@@ -26,8 +26,6 @@ func (n Name) PackLen() int {
 // copied and from dnsmessage.Name.pack.
 // Note: compression map is valid when name is not changed.
 func (n Name) pack(msg []byte, off int, compression map[string]uint16) (int, error) {
-	var unsafeStr string // lazy init
-
 	scanner := NewNameScanner(n)
 	for scanner.Scan() {
 		seg := scanner.Label()
@@ -40,16 +38,6 @@ func (n Name) pack(msg []byte, off int, compression map[string]uint16) (int, err
 				// Hit. Emit a pointer instead of the rest of
 				// the domain.
 				return packNamePtr(msg, off, [2]byte{byte(ptr>>8 | 0xC0), byte(ptr)})
-			}
-
-			// Miss. Add the suffix to the compression table if the
-			// offset can be stored in the available 14 bits.
-			newPtr := off
-			if newPtr <= int(^uint16(0)>>2) {
-				if len(unsafeStr) == 0 {
-					unsafeStr = bytes2StrUnsafe(n)
-				}
-				compression[unsafeStr[labelStart-1:]] = uint16(newPtr)
 			}
 		}
 
@@ -65,6 +53,22 @@ func (n Name) pack(msg []byte, off int, compression map[string]uint16) (int, err
 	}
 	if err := scanner.Err(); err != nil {
 		return off, err
+	}
+
+	// Miss. The name was written without a pointer. Add its suffixes to the
+	// compression table if their offsets can be stored in the available 14
+	// bits. Names that end with a pointer are not added, so a pointer never
+	// leads to another pointer and decoders will not hit their pointer limit.
+	if compression != nil && len(n) > 0 {
+		unsafeStr := bytes2StrUnsafe(n)
+		nameStart := off - len(n)
+		scanner = NewNameScanner(n)
+		for scanner.Scan() {
+			suffixStart := scanner.LabelOff() - 1
+			if newPtr := nameStart + suffixStart; newPtr <= int(^uint16(0)>>2) {
+				compression[unsafeStr[suffixStart:]] = uint16(newPtr)
+			}
+		}
 	}
 	return packByte(msg, off, 0)
 }
